@@ -399,12 +399,18 @@ _SEEN = {}
 _MAIN = os.getpid()
 
 
-def builder(base, depth):
+STRUCTURAL = ('message-block', 'upper', 'lead1', 'lead4', 'dollar', 'ccomment', 'ccomment-inside', 'blanks', 'tab',
+              'split5', 'splittab', 'splitamp', 'shorthand')
+
+
+def builder(base, depth, kinds=None):
     def build(ch):
         text = BASE[base]
         path = []
         for step in range(depth):
             rw = rewrites(text)
+            if kinds is not None:
+                rw = [x for x in rw if x[0].split(':')[0] in kinds]
             k = ch.choose('rewrite%d' % step, ['stop'] + list(range(len(rw))))
             if k == 'stop':
                 break
@@ -412,7 +418,7 @@ def builder(base, depth):
             text = rw[k][1]
         # explicit-state de-duplication (enumerating process only)
         if os.getpid() == _MAIN and path:
-            key = (base, text)
+            key = (base, kinds is None, text)
             first = _SEEN.setdefault(key, tuple(ch.trace[:len(path)]))
             if first != tuple(ch.trace[:len(path)]):
                 ch.reject('state already visited')
@@ -421,9 +427,13 @@ def builder(base, depth):
 
 
 def scenarios(tier):
-    d = 2 if tier == 'quick' else 3
-    return [Scn('deck' + b, builder(b, d), d if b != 'D' or tier == 'quick' else d, d,
-                'rewrite sequences of length <= %d' % d) for b in 'ABCD']
+    out = [Scn('deck' + b, builder(b, 2), 2, 2, 'rewrite sequences of length <= 2, all rewrite kinds') for b in 'ABCD']
+    if tier != 'quick':
+        # depth 3 over the structural rewrites (case, blanks, continuation, comments, message block, shorthand);
+        # number respellings stay at depth 2
+        out += [Scn('deck%s-d3' % b, builder(b, 3, STRUCTURAL), 3, 3,
+                    'rewrite sequences of length <= 3, structural rewrite kinds') for b in 'DCBA']
+    return out
 
 
 def canon(t4):
